@@ -435,6 +435,13 @@ def run_shard(shard, tier, seed):
                     for lab in olabs:
                         run({"source": "model", "family": "ordered", "osh": osh, "ssh": ssh, "leafmap": leafmap, "leafsyn": leafsyn,
                              "mapping": m, "labelling": lab, "naming": naming, "ofeats": ofe, "sfeats": sfe, "costs": COSTS[ci % 3]})
+                    if olabs and ci == 0:
+                        # an ordered solution in which one leaf holds NO family at all (an empty synteny is a subsequence of
+                        # everything)
+                        last = O.leaves[-1]
+                        run({"source": "model", "family": "ordered", "osh": osh, "ssh": ssh, "leafmap": leafmap,
+                             "leafsyn": {**leafsyn, last: ()}, "mapping": m, "labelling": {**olabs[0], last: ()},
+                             "naming": naming, "ofeats": ofe, "sfeats": sfe, "costs": COSTS[ci % 3]})
     return {"evaluations": n_eval, "nontrivial": nt, "samples": samples, "violations": viols, "violations_total": vtotal,
             "counters": counters}
 
